@@ -334,6 +334,177 @@ def hollow_leaf(has_f1):
     return leaf
 
 
+
+class Untranslatable(Exception):
+    pass
+
+
+def _translate_kernel_py():
+    """Kernel.Fq and Kernel.Iq of the current kernel.py (normalisation by the total weight and the shell volume,
+    scale and background) as Gallina over an Ops carrier.  Fail-closed Python-ast walk."""
+    import ast, os
+    tree = ast.parse(open(os.path.join(common.REPO, "sasmodels", "kernel.py")).read())
+    fns = {}
+    for node in tree.body:
+        if isinstance(node, ast.ClassDef) and node.name == "Kernel":
+            for it in node.body:
+                if isinstance(it, ast.FunctionDef):
+                    fns[it.name] = it
+    if "Fq" not in fns or "Iq" not in fns:
+        raise Untranslatable("Kernel.Fq / Kernel.Iq not found")
+    SLOT = {0: "(s_norm s)", 1: "(s_form s)", 2: "(s_shell s)", 3: "(s_rad s)"}
+
+    def slot(e):
+        # result[nout*self.q_input.nq + k]
+        if isinstance(e, ast.Subscript) and isinstance(e.value, ast.Name) and e.value.id == "result":
+            ix = e.slice
+            if isinstance(ix, ast.BinOp) and isinstance(ix.op, ast.Add) and ast.unparse(ix.left) == "nout * self.q_input.nq" \
+                    and isinstance(ix.right, ast.Constant) and ix.right.value in SLOT:
+                return SLOT[ix.right.value]
+            if isinstance(ix, ast.Slice) and ast.unparse(ix.upper) == "nout * self.q_input.nq" and ast.unparse(ix.step) == "nout" \
+                    and isinstance(ix.lower, ast.Constant) and ix.lower.value in (0, 1):
+                return ("vec", "(s_f2 s)" if ix.lower.value == 0 else "(s_f1 s)")
+        return None
+
+    def ex(e, env):
+        """returns a scalar Coq text or ("vec", text)"""
+        sl = slot(e)
+        if sl is not None:
+            return sl
+        if isinstance(e, ast.Constant) and isinstance(e.value, float):
+            if e.value == 0.0:
+                return "(zero O)"
+            if e.value == 1.0:
+                return "(one O)"
+            raise Untranslatable("literal %r" % e.value)
+        if isinstance(e, ast.Name):
+            if e.id in env:
+                return env[e.id]
+            raise Untranslatable("name %s" % e.id)
+        if isinstance(e, ast.BinOp) and isinstance(e.op, (ast.Div, ast.Mult, ast.Add, ast.Sub)):
+            op = {ast.Div: "div", ast.Mult: "mul", ast.Add: "add", ast.Sub: "sub"}[type(e.op)]
+            a, b = ex(e.left, env), ex(e.right, env)
+            if isinstance(a, tuple) and isinstance(b, tuple):
+                raise Untranslatable("vector (op) vector")
+            if isinstance(a, tuple):
+                return ("vec", "(map (fun x__ => %s O x__ %s) %s)" % (op, b, a[1]))
+            if isinstance(b, tuple):
+                return ("vec", "(map (fun x__ => %s O %s x__) %s)" % (op, a, b[1]))
+            return "(%s O %s %s)" % (op, a, b)
+        raise Untranslatable("expression %s" % ast.unparse(e)[:60])
+
+    # ---- Fq
+    env, lets = {}, []
+    ret = None
+    counter = [0]
+
+    def bind(name, val):
+        counter[0] += 1
+        v = "%s_%d" % (name, counter[0])
+        if isinstance(val, tuple):
+            lets.append((v, val[1])); env[name] = ("vec", v)
+        else:
+            lets.append((v, val)); env[name] = v
+
+    for st in fns["Fq"].body:
+        if isinstance(st, ast.Expr) and isinstance(st.value, ast.Constant):
+            continue
+        txt = ast.unparse(st)
+        if txt == "nout = 2 if self.info.have_Fq and self.dim == '1d' else 1":
+            continue
+        if isinstance(st, ast.If) and ast.unparse(st.test) == "call_details.num_eval > 0":
+            body = [ast.unparse(x) for x in st.body]
+            orelse = [ast.unparse(x) for x in st.orelse]
+            if not (len(body) == 2 and body[0].startswith("self._call_kernel(") and body[1] == "result = self.result"
+                    and orelse == ["result = np.zeros(nout * self.q_input.nq + 4, 'd')"]):
+                raise Untranslatable("the kernel call / empty-mesh branch has changed: %s" % txt[:120])
+            continue
+        if isinstance(st, ast.If) and len(st.body) == 1 and not st.orelse and isinstance(st.test, ast.Compare) \
+                and len(st.test.ops) == 1 and isinstance(st.test.ops[0], ast.Eq) and isinstance(st.test.left, ast.Name):
+            nm = st.test.left.id
+            a = st.body[0]
+            if not (isinstance(a, ast.Assign) and len(a.targets) == 1 and isinstance(a.targets[0], ast.Name) and a.targets[0].id == nm):
+                raise Untranslatable("conditional %s" % txt[:60])
+            bind(nm, "(if eqb O %s %s then %s else %s)" % (env[nm], ex(st.test.comparators[0], env), ex(a.value, env), env[nm]))
+            continue
+        if isinstance(st, ast.Assign) and len(st.targets) == 1 and isinstance(st.targets[0], ast.Name):
+            v = st.value
+            if isinstance(v, ast.IfExp):
+                if ast.unparse(v.test) == "nout == 2" and isinstance(v.orelse, ast.Constant) and v.orelse.value is None:
+                    v = v.body
+                else:
+                    raise Untranslatable("conditional expression %s" % ast.unparse(v)[:60])
+            bind(st.targets[0].id, ex(v, env))
+            continue
+        if isinstance(st, ast.Return) and isinstance(st.value, ast.Tuple) and len(st.value.elts) == 5:
+            ret = [ex(e, env) for e in st.value.elts]
+            continue
+        raise Untranslatable("statement %s" % txt[:80])
+    if ret is None or not (isinstance(ret[0], tuple) and isinstance(ret[1], tuple)) or any(isinstance(r, tuple) for r in ret[2:]):
+        raise Untranslatable("Fq does not return (F1, F2, R_eff, V_shell, ratio)")
+    norm = "".join("    let %s := %s in\n" % (n, e) for n, e in lets) + "    MkFq %s %s %s %s %s" % (ret[0][1], ret[1][1], ret[2], ret[3], ret[4])
+    # ---- Iq
+    env, lets = {"values[0]": "scale", "values[1]": "background"}, []
+    ret = None
+    for st in fns["Iq"].body:
+        if isinstance(st, ast.Expr) and isinstance(st.value, ast.Constant):
+            continue
+        txt = ast.unparse(st)
+        if isinstance(st, ast.Assign) and isinstance(st.targets[0], ast.Tuple):
+            names = [ast.unparse(t) for t in st.targets[0].elts]
+            if not (ast.unparse(st.value).startswith("self.Fq(call_details, values, cutoff, magnetic") and len(names) == 5):
+                raise Untranslatable("Iq no longer unpacks self.Fq(...): %s" % txt[:80])
+            fields = [("vec", "(o_f1 o)"), ("vec", "(o_f2 o)"), "(o_reff o)", "(o_shell o)", "(o_ratio o)"]
+            for n, f in zip(names, fields):
+                if n != "_":
+                    env[n] = f
+            continue
+        if isinstance(st, ast.Assign) and len(st.targets) == 1 and isinstance(st.targets[0], ast.Name):
+            def ex2(e):
+                if isinstance(e, ast.Subscript) and ast.unparse(e) in env:
+                    return env[ast.unparse(e)]
+                if isinstance(e, ast.BinOp):
+                    e2 = ast.BinOp(left=ast.Name(id="__l"), op=e.op, right=ast.Name(id="__r"))
+                    return ex(e2, dict(env, __l=ex2(e.left), __r=ex2(e.right)))
+                return ex(e, env)
+            env[st.targets[0].id] = ex2(st.value)
+            continue
+        if isinstance(st, ast.Return):
+            def ex3(e):
+                if isinstance(e, ast.BinOp):
+                    e2 = ast.BinOp(left=ast.Name(id="__l"), op=e.op, right=ast.Name(id="__r"))
+                    return ex(e2, dict(env, __l=ex3(e.left), __r=ex3(e.right)))
+                return ex(e, env)
+            ret = ex3(st.value)
+            continue
+        raise Untranslatable("statement %s" % txt[:80])
+    if not isinstance(ret, tuple):
+        raise Untranslatable("Iq does not return a vector")
+    return norm, "    let o := code_normalise s in\n    %s" % ret[1]
+
+
+def gen():
+    """Regenerate Gen/C01_code.v from the text of kernel.py (Kernel.Fq, Kernel.Iq)."""
+    import os
+    lines = ["(* GENERATED by harness/c01.py from sasmodels/kernel.py: Kernel.Fq (normalisation of the accumulated sums) and Kernel.Iq. *)",
+             "From Coq Require Import List.", "Import ListNotations.", "From SM Require Import Base.Num C01.Model.", ""]
+    note = None
+    try:
+        norm, iq = _translate_kernel_py()
+    except (Untranslatable, OSError, SyntaxError, KeyError, AttributeError) as exc:
+        note = "%s: %s" % (type(exc).__name__, exc)
+        norm, iq = "    normalise O s", "    intensity O scale background s"
+    lines.append("Definition translated : bool := %s." % ("true" if note is None else "false"))
+    if note:
+        lines.append("(* not translated: %s *)" % note.replace("*)", "* )"))
+    lines += ["", "Section Code.", "  Context {T : Type} (O : Ops T).", "",
+              "  Definition code_normalise (s : Sums (T:=T)) : FqOut (T:=T) :=\n%s." % norm, "",
+              "  Definition code_intensity (scale background : T) (s : Sums (T:=T)) : list T :=\n%s." % iq,
+              "End Code.", ""]
+    common.write_if_changed(os.path.join(common.THEORIES, "Gen", "C01_code.v"), "\n".join(lines))
+    return note
+
+
 def case_to_coq(c):
     leaves = coq_list(["(%s, %s, %s)" % (cbool(v), fhex(pj), flist(cs)) for v, pj, cs in c["leaves"]],
                       "(bool * float * list float)")
@@ -373,7 +544,12 @@ def q_vectors(dim, rng):
 def main(run):
     rng = random.Random(run.seed * 7919 + 101)
     thorough = run.tier == "thorough"
-    run.prove(["C01/Property.v"])
+    note = []
+    run.prove(["C01/Property.v"], gen=lambda: note.append(gen()))
+    if note and note[0]:
+        run.notes.append("kernel.py Fq/Iq not translated (%s): the source-text obligations C01_code_* are vacuous in this run, the behavioural tie decides" % note[0])
+    else:
+        run.notes.append("Kernel.Fq / Kernel.Iq translated from the current kernel.py (Gen/C01_code.v) and proved equal to the model for every number type (C01_code_normalisation)")
     names = sas.compiled_model_names()
     models = list(names) if thorough else [m for m in QUICK_MODELS if m in names]
     ncases = 14 if not thorough else 12
